@@ -493,6 +493,20 @@ impl Plan {
         mask
     }
 
+    /// set every ancestor of the set members
+    pub fn normalize_up(&self, mut mask: u64) -> u64 {
+        for i in (0..self.opts.len()).rev() {
+            if mask >> i & 1 == 1 {
+                let mut p = self.opts[i].parent;
+                while let Some(pp) = p {
+                    mask |= 1u64 << pp;
+                    p = self.opts[pp].parent;
+                }
+            }
+        }
+        mask
+    }
+
     pub fn opt_index(&self, path: &str) -> usize {
         self.opts
             .iter()
@@ -701,6 +715,10 @@ pub fn menu(ty: &Ty, id: usize, side: Side) -> Vec<V> {
                 v.push(V::t(&fill_wide(n + 2, 3)));
                 v.push(V::t(&fill_wide(n + 2, 4)));
                 v.push(V::t(&fill_wide(n + 1, 2)));
+                // four-byte characters starting at n-3, n-2, n-1 (the cut falls inside one)
+                for pad in 1..=3usize {
+                    v.push(V::t(&format!("{}{}", "p".repeat(pad), fill_wide(n + 4, 4))));
+                }
             }
             v
         }
@@ -721,6 +739,21 @@ pub fn menu(ty: &Ty, id: usize, side: Side) -> Vec<V> {
             if let Some(m) = max {
                 v.push(list_of(elem, m - 1));
                 v.push(list_of(elem, *m));
+            }
+            // repeated entries (a platform may list the same credential / value twice)
+            let cap = max.unwrap_or(usize::MAX);
+            if cap >= 2 {
+                v.push(V::A(vec![default_elem(elem, 0), default_elem(elem, 0)]));
+            }
+            if cap >= 3 {
+                v.push(V::A(vec![default_elem(elem, 0), default_elem(elem, 1), default_elem(elem, 0)]));
+            }
+            if let Ty::Struct(..) = **elem {
+                // entries of very different sizes: empty id, id at a head-width boundary
+                if cap >= 3 {
+                    v.push(V::A(vec![descriptor(0, 0), descriptor(1, 255), descriptor(2, 256)]));
+                }
+                v.push(V::A(vec![descriptor(3, 24)]));
             }
             v
         }
@@ -775,6 +808,8 @@ pub fn menu(ty: &Ty, id: usize, side: Side) -> Vec<V> {
             V::A(vec![V::t("none"), V::t("packed")]),
             V::A(vec![V::t("packed"), V::t("none"), V::t("tpm")]),
             V::A(vec![V::t("Packed"), V::t("NONE")]),
+            V::A(vec![V::t("packed"), V::t("packed"), V::t("none")]),
+            V::A(vec![V::t("none"), V::t("apple"), V::t("none"), V::t("tpm"), V::t("packed")]),
         ],
         Ty::Enum(vals) => {
             let mut v = vec![V::U(vals[id % vals.len()])];
